@@ -372,18 +372,24 @@ class Tensor:
         ordered_nodes = []
         visited_nodes = set()
         stale_grads = {} # gradients kept on non-leaf tensors by earlier calls must not be propagated again
-        def visit_node(node):
-            if node not in visited_nodes:
-                visited_nodes.add(node)
-                for child in node._children:
-                    if child.requires_grad and child._grad is None:
-                        child.zero_()
-                    elif child.requires_grad and not child.is_leaf and child not in stale_grads:
-                        stale_grads[child] = child._grad
-                        child.zero_()
-                    visit_node(child)
+        # (iterative depth-first post-order: no recursion limit on deep graphs)
+        visited_nodes.add(self)
+        pending = [(self, iter(self._children))]
+        while pending:
+            node, children = pending[-1]
+            for child in children:
+                if child.requires_grad and child._grad is None:
+                    child.zero_()
+                elif child.requires_grad and not child.is_leaf and child not in stale_grads:
+                    stale_grads[child] = child._grad
+                    child.zero_()
+                if child not in visited_nodes:
+                    visited_nodes.add(child)
+                    pending.append((child, iter(child._children)))
+                    break
+            else:
                 ordered_nodes.append(node)
-        visit_node(self)
+                pending.pop()
 
         # Go one tensor at a time and apply the chain rule to get its gradient
         # (a leaf accumulates; the caller's gradient array is never aliased)
